@@ -83,6 +83,7 @@ var cutNames = [...]string{"none", "FIN", "RST", "local-close"}
 var wireNames = [...]string{"pair", "sut-sends", "sut-receives", "duplex"}
 
 type plan struct {
+	v6      bool // the peer / crossover address is an IPv6 address
 	wiring  int
 	lens    []int
 	lens2   []int // duplex: frames of the reverse direction; two sessions: frames of the second session
@@ -171,6 +172,7 @@ func genPlan(o hx.Opts) *plan {
 	if p.wiring == WireDuplex {
 		p.lens2 = append(p.lens2, lens2[:n2]...)
 	}
+	p.v6 = hx.G(5) == 0
 	ts, r1 := hx.G(4), hx.G(maxFrames+1)
 	if p.wiring == WireSUTRecv && ts == 0 {
 		p.twoSess = true
@@ -300,6 +302,7 @@ func Run(seed uint64, index int64, o hx.Opts) *hx.Result {
 	w := rt.NewWorld(cfg)
 	w.NoSkip = true
 	simnet.RegisterCrossover("10.0.0.99:139")
+	simnet.RegisterCrossover("fd00::99:139")
 
 	var pl *plan
 	var recvs []recvRes
@@ -386,6 +389,12 @@ func Run(seed uint64, index int64, o hx.Opts) *hx.Result {
 			rt.Probe(where)
 		}
 		simnet.SetDefaultWindow(pl.window)
+		peerIP, peerAddr, xIP := net.IP{10, 0, 0, 2}, "10.0.0.2:139", net.IP{10, 0, 0, 99}
+		peerHost := "10.0.0.2"
+		if pl.v6 {
+			peerIP, peerAddr, xIP = net.ParseIP("fd00::2"), "[fd00::2]:139", net.ParseIP("fd00::99")
+			peerHost = "fd00::2"
+		}
 
 		if pl.twoSess {
 			// one transport object, two consecutive sessions: what the first connection left unread must not
@@ -401,12 +410,12 @@ func Run(seed uint64, index int64, o hx.Opts) *hx.Result {
 					stream2 = append(stream2, frame(p)...)
 				}
 			}
-			ln, err := simnet.Listen("tcp", "10.0.0.2:139")
+			ln, err := simnet.Listen("tcp", peerAddr)
 			if err != nil {
 				panic(err)
 			}
 			tr := transport.NewTransport("nbt")
-			peer := rt.GoHarness("peer", "10.0.0.2", func() {
+			peer := rt.GoHarness("peer", peerHost, func() {
 				for _, data := range [][]byte{stream, stream2} {
 					c, err := ln.Accept()
 					if err != nil {
@@ -421,7 +430,7 @@ func Run(seed uint64, index int64, o hx.Opts) *hx.Result {
 				n1 = len(legal)
 			}
 			sut := rt.GoHarness("receiver", "10.0.0.1", func() {
-				if err := tr.Connect(net.IP{10, 0, 0, 2}, 139); err != nil {
+				if err := tr.Connect(peerIP, 139); err != nil {
 					bad = &hx.Violation{Class: "connect", Key: "connect", Msg: err.Error()}
 					return
 				}
@@ -429,7 +438,7 @@ func Run(seed uint64, index int64, o hx.Opts) *hx.Result {
 					recvs = receiveAll(tr, n1, false)
 				}
 				tr.Close()
-				if err := tr.Connect(net.IP{10, 0, 0, 2}, 139); err != nil {
+				if err := tr.Connect(peerIP, 139); err != nil {
 					bad = &hx.Violation{Class: "connect", Key: "reconnect", Msg: err.Error()}
 					return
 				}
@@ -447,14 +456,14 @@ func Run(seed uint64, index int64, o hx.Opts) *hx.Result {
 		}
 		switch pl.wiring {
 		case WireSUTRecv:
-			ln, err := simnet.Listen("tcp", "10.0.0.2:139")
+			ln, err := simnet.Listen("tcp", peerAddr)
 			if err != nil {
 				panic(err)
 			}
 			var pc simnet.Conn
 			tr := transport.NewTransport("nbt")
 			connected := &rt.Flag{} // set once the receiver's Connect has returned
-			peer := rt.GoHarness("peer", "10.0.0.2", func() {
+			peer := rt.GoHarness("peer", peerHost, func() {
 				c, err := ln.Accept()
 				if err != nil {
 					return
@@ -511,7 +520,7 @@ func Run(seed uint64, index int64, o hx.Opts) *hx.Result {
 				}
 			})
 			sut := rt.GoHarness("receiver", "10.0.0.1", func() {
-				if err := tr.Connect(net.IP{10, 0, 0, 2}, 139); err != nil {
+				if err := tr.Connect(peerIP, 139); err != nil {
 					connected.Set()
 					bad = &hx.Violation{Class: "connect", Key: "connect", Msg: err.Error()}
 					return
@@ -532,13 +541,13 @@ func Run(seed uint64, index int64, o hx.Opts) *hx.Result {
 			ln.Close()
 
 		case WireSUTSend:
-			ln, err := simnet.Listen("tcp", "10.0.0.2:139")
+			ln, err := simnet.Listen("tcp", peerAddr)
 			if err != nil {
 				panic(err)
 			}
 			tr := transport.NewTransport("nbt")
 			peerReady := &rt.Flag{}
-			peer := rt.GoHarness("peer", "10.0.0.2", func() {
+			peer := rt.GoHarness("peer", peerHost, func() {
 				c, err := ln.Accept()
 				if err != nil {
 					peerReady.Set()
@@ -559,7 +568,7 @@ func Run(seed uint64, index int64, o hx.Opts) *hx.Result {
 				}
 			})
 			sut := rt.GoHarness("sender", "10.0.0.1", func() {
-				if err := tr.Connect(net.IP{10, 0, 0, 2}, 139); err != nil {
+				if err := tr.Connect(peerIP, 139); err != nil {
 					bad = &hx.Violation{Class: "connect", Key: "connect", Msg: err.Error()}
 					return
 				}
@@ -586,11 +595,11 @@ func Run(seed uint64, index int64, o hx.Opts) *hx.Result {
 			}
 			a := transport.NewTransport("nbt")
 			b := transport.NewTransport("nbt")
-			if err := a.Connect(net.IP{10, 0, 0, 99}, 139); err != nil {
+			if err := a.Connect(xIP, 139); err != nil {
 				bad = &hx.Violation{Class: "connect", Key: "connect", Msg: err.Error()}
 				return
 			}
-			if err := b.Connect(net.IP{10, 0, 0, 99}, 139); err != nil {
+			if err := b.Connect(xIP, 139); err != nil {
 				bad = &hx.Violation{Class: "connect", Key: "connect", Msg: err.Error()}
 				return
 			}
@@ -621,11 +630,11 @@ func Run(seed uint64, index int64, o hx.Opts) *hx.Result {
 		case WirePair:
 			s := transport.NewTransport("nbt")
 			r := transport.NewTransport("nbt")
-			if err := s.Connect(net.IP{10, 0, 0, 99}, 139); err != nil {
+			if err := s.Connect(xIP, 139); err != nil {
 				bad = &hx.Violation{Class: "connect", Key: "connect", Msg: err.Error()}
 				return
 			}
-			if err := r.Connect(net.IP{10, 0, 0, 99}, 139); err != nil {
+			if err := r.Connect(xIP, 139); err != nil {
 				bad = &hx.Violation{Class: "connect", Key: "connect", Msg: err.Error()}
 				return
 			}
@@ -682,7 +691,7 @@ func Run(seed uint64, index int64, o hx.Opts) *hx.Result {
 	if pl.cutKind != cutNone {
 		desc += fmt.Sprintf("@%d", pl.cutAt)
 	}
-	desc += fmt.Sprintf(" seg=%d window=%d", pl.segMode, pl.window)
+	desc += fmt.Sprintf(" seg=%d window=%d ipv6=%v", pl.segMode, pl.window, pl.v6)
 	res.Sample = map[string]any{"plan": desc, "sends": len(sends), "receives": len(recvs), "wire_bytes_seen_by_peer": len(wire)}
 	if v == nil && bad == nil {
 		if len(pl.keepAt) > 0 {
